@@ -81,8 +81,14 @@ def check_item(ob, case, item, site, K=1):
     for w in sorted(block.wirevector_subset(pyrtl.Input), key=lambda w: w.name):
         ins[w.name] = SymInt.mk(v.inp(w.name, 0, w.bitwidth), False)
     assume = [to_cond(c) for c in spec['assume'](ins)] if 'assume' in spec else []
-    with sym_env([block]):
-        rs = run_sim(block, 1, v, reg_init='reset', mem_init='default', track='io', assumptions=assume)
+    if case.get('backend') == 'compiled':
+        # the same circuit on the C back end (its generated C given meaning by vf/ctrans.py)
+        cm = simdrv.CompiledModel(block)
+        rs = simdrv.run_compiled(cm, 1, v, assumptions=assume)
+    else:
+        with sym_env([block]):
+            rs = run_sim(block, 1, v, kind=case.get('backend', 'sim'), reg_init='reset', mem_init='default', track='io',
+                         assumptions=assume)
     ob.paths += len(rs)
     exp = spec['oracle'](ins)
     goals = []
@@ -128,7 +134,7 @@ def replay_item(cex, item):
         x = mv.get('inputs', {}).get(w.name, {})
         ins[w.name] = x.get('0', x.get(0, 0))
     try:
-        sim = pyrtl.Simulation(block=block)
+        sim = {'sim': pyrtl.Simulation, 'fast': pyrtl.FastSimulation, 'compiled': pyrtl.CompiledSimulation}[case.get('backend', 'sim')](block=block)
         sim.step(ins)
     except Exception as e:
         return True, 'real Simulation raised %r on %r' % (e, ins)
